@@ -73,6 +73,11 @@ class C13(scen.PairProp):
                 when = rng.choice(["before", "during"])
                 ts = t0 - 0.5 if when == "before" else a + I * N * 1.5
                 pre = [[ts + 0.01 * j, "msg", {"m": "setting", "kvs": [["inertia", v]]}] for j, v in enumerate(vals)]
+                if inertia == 1.0 and rng.random() < 0.6:
+                    # ... and later in the touch the band asks for another speed (the same request in both runs): the
+                    # line bends where Wheatley has got to, which the humans' timings have no say in
+                    pre.append([a + I * N * rng.uniform(3.5, 7.5), "msg",
+                                {"m": "setting", "kvs": [["peal_speed", rng.choice([100, 150, 200, 240])]]}])
                 k = 0
                 for r in range(rows):
                     for b in humans:
